@@ -144,9 +144,13 @@ class _CachedStorage(BaseStorage, BaseHeartbeat):
         return self._backend.get_all_studies()
 
     def create_new_trial(self, study_id: int, template_trial: FrozenTrial | None = None) -> int:
-        frozen_trial = self._backend._create_new_trial(study_id, template_trial)
-        trial_id = frozen_trial._trial_id
         with self._lock:
+            # The created trial is merged into the cache in the critical section it was fetched
+            # in. Otherwise a refresh by another thread could cache a newer state of the trial
+            # (e.g. a ``WAITING`` trial that another worker has already finished), which this
+            # older snapshot would then overwrite.
+            frozen_trial = self._backend._create_new_trial(study_id, template_trial)
+            trial_id = frozen_trial._trial_id
             if study_id not in self._studies:
                 self._studies[study_id] = _StudyInfo()
             study = self._studies[study_id]
